@@ -22,6 +22,7 @@ structure SDt where
   alive : Bool
   starts : Nat          -- DowntimeStart requests so far
   ends : Nat            -- DowntimeEnd requests so far
+  excused : Bool        -- it took effect while the checkable was paused: no DowntimeStart is due
   deriving Repr, DecidableEq
 
 structure SpecSt where
@@ -31,10 +32,11 @@ structure SpecSt where
   since : Int               -- when the state last changed (start of the monitoring process if never)
   dts : List SDt
   startNext : Int
+  paused : Bool             -- the checkable is paused: notification requests are skipped
   deriving Repr, DecidableEq
 
 def specInit (k : Kind) : SpecSt :=
-  { kind := k, checked := false, state := 0, since := 990, dts := [], startNext := 1000 }
+  { kind := k, checked := false, state := 0, since := 990, dts := [], startNext := 1000, paused := false }
 
 /-- The checkable has a problem the reader knows of. -/
 def SpecSt.problem (sp : SpecSt) : Bool := sp.checked && !isOK sp.kind sp.state
@@ -85,15 +87,18 @@ def SDt.trigWindow (now : Int) (d : SDt) : Bool :=
 def SDt.over (now : Int) (d : SDt) : Bool :=
   if d.fixed || d.trig == 0 then decide (d.fin < now) else decide (d.trig + d.duration < now)
 
-/-- The downtime as the reader sees it after the operation. -/
-def SDt.after (o : Obs) (d : SDt) : SDt :=
+/-- The downtime as the reader sees it after the operation (`q`: the checkable was paused). -/
+def SDt.after (q : Bool) (o : Obs) (d : SDt) : SDt :=
   let t := obsTrig o d.id
-  { d with alive := d.alive && t.isSome, trig := (match t with | some x => if d.alive then x else d.trig | none => d.trig),
-           starts := d.starts + evCount o 1 d.id, ends := d.ends + evCount o 2 d.id }
+  let trig' := (match t with | some x => if d.alive then x else d.trig | none => d.trig)
+  { d with alive := d.alive && t.isSome, trig := trig',
+           starts := d.starts + evCount o 1 d.id, ends := d.ends + evCount o 2 d.id,
+           excused := d.excused || (q && ((d.trig == 0 && trig' != 0) || evCount o 3 d.id > 0)) }
 
 def newSDt (p : AddP) (parentAlive : Bool) : SDt :=
   { id := p.id, fixed := p.fixed, start := p.start, fin := p.fin, duration := p.duration,
-    trigBy := if parentAlive then p.trigBy else 0, owner := p.owner, trig := 0, alive := true, starts := 0, ends := 0 }
+    trigBy := if parentAlive then p.trigBy else 0, owner := p.owner, trig := 0, alive := true, starts := 0, ends := 0,
+    excused := false }
 
 def SpecSt.find (sp : SpecSt) (id : Nat) : Option SDt := sp.dts.find? (fun d => d.id == id)
 
@@ -117,13 +122,14 @@ def stateChangeSpec (sp : SpecSt) (s : Nat) : Bool :=
 
 /-- Bookkeeping after an operation. -/
 def specNext (sp : SpecSt) (op : Op) (o : Obs) : SpecSt :=
-  let dts := (preDts sp op o).map (SDt.after o)
+  let dts := (preDts sp op o).map (SDt.after sp.paused o)
   match op with
   | .result s te _ =>
     if o.rc == 1 then
       { sp with checked := true, state := s, since := if stateChangeSpec sp s then te else sp.since, dts := dts }
     else { sp with dts := dts }
   | .pump now => { sp with dts := dts, startNext := if sp.startNext ≤ now then now + 5 else sp.startNext }
+  | .setPaused b _ => { sp with dts := dts, paused := b }
   | _ => { sp with dts := dts }
 
 /-- First enabled element of a list of checks that fails. -/
@@ -143,6 +149,7 @@ def existenceOK (op : Op) (o : Obs) (old pre : List SDt) : Bool :=
      (o.rc == 1) == !(old.any (fun d => d.id == p.id)) && (o.rc == 1 || o.rc == 0) &&
      (o.rc == 0 || ids.contains p.id)
    | .result _ _ _ => old.all (fun d => !d.alive || ids.contains d.id)
+   | .setPaused _ _ => old.all (fun d => !d.alive || ids.contains d.id)
    | .pump _ => true
    | .remove id _ _ =>
      old.all (fun d => !d.alive || (ids.contains d.id == !(o.rc == 1 && d.id == id))) &&
@@ -157,7 +164,7 @@ def flexDue (sp : SpecSt) (op : Op) (o : Obs) (d : SDt) : Option Int :=
     if o.rc == 1 && p.id == d.id && sp.problem && d.inWindow now then some (max (max d.start now) sp.since) else none
   | _ => none
 
-def postDts (sp : SpecSt) (op : Op) (o : Obs) : List SDt := (preDts sp op o).map (SDt.after o)
+def postDts (sp : SpecSt) (op : Op) (o : Obs) : List SDt := (preDts sp op o).map (SDt.after sp.paused o)
 
 def gone (o : Obs) (d : SDt) : Bool := d.alive && (obsTrig o d.id).isNone
 
@@ -212,7 +219,7 @@ def chkStartOnce (sp : SpecSt) (op : Op) (o : Obs) : Bool := (postDts sp op o).a
 
 /-- … present once it has taken effect. -/
 def chkStarted (sp : SpecSt) (op : Op) (o : Obs) : Bool :=
-  (postDts sp op o).all (fun d => !(d.alive && d.trig != 0) || d.starts ≥ 1)
+  (postDts sp op o).all (fun d => !(d.alive && d.trig != 0 && !d.excused) || d.starts ≥ 1)
 
 /-- A fixed downtime inside its window has taken effect once the start timer has fired or it has just
     been created (that it then has requested DowntimeStart is the previous clause). -/
@@ -225,11 +232,11 @@ def chkEndOnce (sp : SpecSt) (op : Op) (o : Obs) : Bool :=
   ((preDts sp op o).zip (postDts sp op o)).all (fun (a, b) =>
     b.ends ≤ 1 &&
     (evCount o 2 a.id == 0 || gone o a) &&
-    (!(gone o a && decide (0 < a.trig) && decide (a.trig ≤ op.now)) || evCount o 2 a.id == 1) &&
+    (!(gone o a && decide (0 < a.trig) && decide (a.trig ≤ op.now)) || evCount o 2 a.id == (if sp.paused then 0 else 1)) &&
     (!(gone o a && a.trig == 0 && evCount o 3 a.id == 0) || evCount o 2 a.id == 0))
 
 def chkEndHasStart (sp : SpecSt) (op : Op) (o : Obs) : Bool :=
-  (postDts sp op o).all (fun d => !(evCount o 2 d.id > 0) || d.starts ≥ 1)
+  (postDts sp op o).all (fun d => !(evCount o 2 d.id > 0 && !d.excused) || d.starts ≥ 1)
 
 def chkRemovedEvent (sp : SpecSt) (op : Op) (o : Obs) : Bool :=
   (preDts sp op o).all (fun a => evCount o 4 a.id == (if gone o a then 1 else 0))
